@@ -64,6 +64,7 @@ def h_parse(ctx):
             raise Unsupported('re.match with a non-constant pattern')
         text = to_z3(a[1], StrS)
         if I_.ctx.branch(UF('re.match[%s]' % pat, StrS, BoolS)(text), 're.match'):
+            flags['effect'] = True
             o = Obj(UF('re.matchobj[%s]' % pat, StrS, ObjS)(text), 'rematch')
             o.ngroups = _re.compile(pat).groups
             o.pat = pat
@@ -89,12 +90,16 @@ def h_parse(ctx):
     sp.models['int'] = Func(m_int)
     # the rule being collected: an opaque, non-empty dict (it always holds 'name')
     sp.truthy_classes.add('openrule')
-    sp.field_sorts[('setitem', 'openrule')] = lambda I_, o, k, v, node: None
-    sp.field_sorts[('openrule', '[]')] = lambda I_, o, k, node: Untracked()
-    sp.field_sorts[('contains', 'openrule')] = lambda I_, c, item, node: I_.ctx.fresh('key_present', BoolS)
+    def touched(v):
+        flags['effect'] = True
+        return v
+    sp.field_sorts[('setitem', 'openrule')] = lambda I_, o, k, v, node: touched(None)
+    sp.field_sorts[('openrule', '[]')] = lambda I_, o, k, node: touched(Untracked())
+    sp.field_sorts[('contains', 'openrule')] = lambda I_, c, item, node: touched(I_.ctx.fresh('key_present', BoolS))
     for meth in ('setdefault', 'get', 'update', 'pop', 'keys', 'items', 'values', 'copy'):
-        sp.models['method:Obj:openrule.' + meth] = Func(lambda I_, a, k, nd: Untracked())        # dict methods on the rule being collected: content abstract
+        sp.models['method:Obj:openrule.' + meth] = Func(lambda I_, a, k, nd: touched(Untracked()))        # dict methods on the rule being collected: content abstract
     calls = {'n': 0}
+    flags = {}          # per loop iteration: did the code do anything with the line (open a rule, touch the open rule, store an assignment)?
 
     def m_add_rule(I_, a, k, nd):
         # contract of _add_rule (proved in props/C17.py): appends exactly one rule, or raises MerchantParseError naming the given line
@@ -118,17 +123,27 @@ def h_parse(ctx):
                'a_rule_is_open_iff_a_header_was_seen': (LastH(lines, k) >= 0) if cur is not None else (LastH(lines, k) == -1)}
         if cur is not None:
             out['open_rule_started_at_its_header_line'] = start == LastH(lines, k) + 1
+        if flags.get('in_step'):
+            # end of an iteration that did not reject the line: the line was used (a header, an assignment, a property of the open rule), or it is
+            # blank / a comment - nothing else is passed over in silence ("malformed ones are rejected, not trimmed")
+            out['a_line_is_passed_over_only_if_blank_or_comment'] = z3.BoolVal(True) if flags.get('effect') else skipped(lines[flags['k']])
         return out
 
     def fresh_current(I_):
         return Obj(I_.fresh('open_rule', ObjS), 'openrule') if I_.ctx.choose(2, 'a_rule_is_open') else None
+    def unfold(I_, env, k, it):
+        # called right before the body runs on line k (step case), and at the entry / exit points with a numeral or the length
+        flags.clear()
+        if not z3.is_int_value(k) and not z3.eq(k, n):
+            flags['in_step'], flags['k'] = True, k
+        return [f for g in GHOSTS for f in g.unfold(lines, k)]
     fr = Frame(fi, {})
     at = {}
     fors = sorted([nd for nd in ast.walk(fi.node) if isinstance(nd, ast.For)], key=lambda x: x.lineno)
     sp.loops[(q, fr.loop_ordinals[id(fors[0])])] = LoopSpec(
         inv, {'current_rule': fresh_current, 'rule_start_line': lambda I_: I_.fresh('rule_start_line', IntS),
               'self.rules': lambda I_: SymSeq([I_.fresh('closed_rule_lines', SI)]), 'self.variables': lambda I_: Untracked(), 'self.transforms': lambda I_: Untracked()},
-        kind='property', unfold=lambda I_, env, k, it: [f for g in GHOSTS for f in g.unfold(lines, k)],
+        kind='property', unfold=unfold,
         exit_facts=lambda I_, env, k, it: (at.__setitem__('k', k), [])[1])
     for nd in fors[1:]:
         # the character loop that splits a tags value: its state stays inside the value being built
@@ -141,6 +156,7 @@ def h_parse(ctx):
     def assign(t, v, frm):
         # current_rule = {'name': ...}: the freshly opened rule (content abstract)
         if isinstance(t, ast.Name) and t.id == 'current_rule' and isinstance(v, dict):
+            flags['effect'] = True
             v = Obj(I.fresh('opened_rule', ObjS), 'openrule')
         return orig_assign(t, v, frm)
     I.assign = assign
